@@ -64,8 +64,20 @@ func litPool() []string {
 	if pbt.Open("C11", "literal-call-text") {
 		return litBodiesNoCall
 	}
+	if pbt.Open("C11", "literal-window-text") {
+		var out []string
+		for _, b := range litBodies {
+			if !windowLike.MatchString(b) {
+				out = append(out, b)
+			}
+		}
+		return out
+	}
 	return litBodies
 }
+
+// windowLike: a literal whose text looks like a window function call
+var windowLike = regexp.MustCompile(`(?i)(tumbling|sliding|counting|session)window\s*\(`)
 
 func isKwBearing(s string) bool {
 	u := strings.ToUpper(s)
